@@ -466,6 +466,16 @@ class ExprMixin:
     def binop(self, op, a, b, node, st):
         if isinstance(a, Sc) and isinstance(b, Sc):
             return self.arith(op, a, b, node, st)
+        if isinstance(a, Mat) or isinstance(b, Mat):
+            if isinstance(op, ast.Mult) and isinstance(a, Mat) and isinstance(b, Sc):
+                return Mat(M_SMUL(a.t, to_real(b)))
+            if isinstance(op, ast.Mult) and isinstance(b, Mat) and isinstance(a, Sc):
+                return Mat(M_SMUL(b.t, to_real(a)))
+            if isinstance(op, ast.MatMult) and isinstance(a, Mat) and isinstance(b, Mat):
+                return Mat(M_MUL(a.t, b.t))
+            if isinstance(op, ast.Add) and isinstance(a, Mat) and isinstance(b, Mat):
+                return Mat(M_ADD(a.t, b.t))
+            raise VCError("matrix operation %s at line %d" % (type(op).__name__, node.lineno))
         a_arr, b_arr = self.is_arr1(st, a), self.is_arr1(st, b)
         if (a_arr or isinstance(a, Sc)) and (b_arr or isinstance(b, Sc)) and (a_arr or b_arr):
             ka = a.kind if isinstance(a, Sc) else self.elem_kind(st, a)
@@ -559,6 +569,8 @@ class ExprMixin:
                     e = self.compare1(ast.Eq(), x, y, node, st).t
                     t = z3.Or(s, z3.And(e, t))
                 return Sc("bool", t)
+        if isinstance(a, Mat) and isinstance(b, Mat) and isinstance(op, (ast.Eq, ast.NotEq)):
+            return Sc("bool", (a.t == b.t) if isinstance(op, ast.Eq) else (a.t != b.t))
         if isinstance(a, StrC) and isinstance(b, StrC) and isinstance(op, (ast.Eq, ast.NotEq)):
             return Sc("bool", z3.BoolVal((a.s == b.s) == isinstance(op, ast.Eq)))
         if isinstance(a, NoneV) or isinstance(b, NoneV):
@@ -591,6 +603,9 @@ class ExprMixin:
             left = right
         del st.guards[n0:]
         return Sc("bool", z3.And(*terms))
+
+    def e_JoinedStr(self, node, st):
+        return StrC("<f-string>")
 
     def e_Dict(self, node, st):
         if node.keys:
@@ -713,7 +728,7 @@ class ExprMixin:
                 return st.alloc(e)
             if isinstance(o, HListTup):
                 idx = self.norm_index(st, node, self.eval_int(sl, st), o.n, "list index")
-                return Tup([Sc(k, z3.Select(c, idx)) for k, c in zip(o.kinds, o.cols)])
+                return Tup([Sc(k, z3.Select(c, idx)) for k, c in zip(o.kinds, o.cols)], o.names)
             if isinstance(o, HDict):
                 kv = self.eval(sl, st)
                 kt = self.key_term(st, o, kv, node)
